@@ -127,6 +127,24 @@ def r2(ctx, facts, cfg):
         ctx.ob("C05.R2b", "_populate_transit_event_from_frontend_queue:compare-after-conversion", ok,
                "the timestamp compared with ts_now is final: it is decoded and (for TSC loggers) converted to epoch time before the test "
                "(%d write(s), none after the test)" % len(writes), fn=f)
+    # R2d: the hold-back applies to every kind of record: the only ways past the test are 'user clock' and 'grace period disabled'
+    ex = []
+    for bid, b in g.blocks.items():
+        c = g.term_cond(bid)
+        nc = norm_cmp(c) if c is not None else None
+        if not nc or nc[0] not in ("==", "!="):
+            continue
+        user = any(x["k"] == "MemberExpr" and x.get("mname") == "clock_source" for x in walk(c)) and \
+            any(x["k"] == "DeclRefExpr" and x.get("name", "").endswith("ClockSourceType::User") for x in walk(c))
+        off = any(x["k"] == "DeclRefExpr" and x.get("did") == tsp for x in walk(c)) and any(is_call(x, r"numeric_limits<.*>::max$") for x in walk(c))
+        if user or off:
+            ex.append((bid, "T" if nc[0] == "==" else "F"))  # label of 'exempt'
+    tn = [tnode(g, b) for (b, _cs) in tests]
+    bypass = g.exists_path([g.entry_node], ind + pb, avoid_nodes=tn, avoid_edges=ex)
+    ctx.ob("C05.R2d", "_populate_transit_event_from_frontend_queue:hold-back-for-every-record", len(ex) >= 2 and not bypass,
+           "every record passes the hold-back test before it is decoded and buffered, whatever its kind (statement, flush request, "
+           "backtrace control, removal request): the only exemptions are a user-supplied clock and a disabled grace period "
+           "(%d exemption test(s) found, another way round the test: %s)" % (len(ex), bypass), fn=f)
     # the decoder call and push_back are not reachable on the 'newer' outcome -> done; also the test precedes the decoder call on all paths where it applies
     first = tests[0][0]
     ok = not g.exists_path(ind, [tnode(g, first)])
